@@ -87,6 +87,67 @@ fn run_simplify_full_classic(e: &Sexp) -> Result<Sexp, String> {
     let (s, f) = parse_case(e)?;
     Ok(outcome(s, x::run_strategy([INTUITIONISTIC, HT, CLASSIC].concat(), s, f)))
 }
+/// cases of the tree-level ops on the CLI's classic portfolio under ONE strategy
+/// (`simplify_full_classic_shallow` / `_recursive`; audit 2, B16 / T9: the composed portfolio was compared
+/// with the model under fixpoint only).  Redexes of both halves: classic redexes nested under connectives
+/// and binders, redexes / cascades of the 13 intuitionistic rewrites, and combinations in which a rewrite
+/// of INTUITIONISTIC ++ HT creates or destroys the redex of a classic rule within the same composed call.
+fn full_formula(rng: &mut Rng) -> fol::Formula {
+    use crate::ext::simplint as si;
+    let int_cfg = |rng: &mut Rng| {
+        let mut c = si::cfg(rng);
+        c.var_names.retain(|n| n.starts_with(|ch: char| ch.is_ascii_uppercase()));
+        c
+    };
+    match rng.weighted(&[40, 15, 10, 35]) {
+        0 => x::formula_nested(rng),
+        1 => {
+            let c = int_cfg(rng);
+            let d = 1 + rng.below(3);
+            si::formula(rng, &c, d)
+        }
+        2 => {
+            let c = int_cfg(rng);
+            let d = 1 + rng.below(2);
+            si::cascade(rng, &c, d)
+        }
+        _ => {
+            // an intuitionistic redex around / next to a classic one
+            let c = int_cfg(rng);
+            let cls = if rng.chance(50) {
+                x::formula_nested(rng)
+            } else {
+                let rule = *rng.pick(&[x::Rule::Sdv, x::Rule::Rqd, x::Rule::Eqs, x::Rule::Ste]);
+                x::formula_for(rng, rule)
+            };
+            let other = {
+                let k = rng.below(si::N_KINDS);
+                let d = rng.below(2);
+                si::redex_of(k, rng, &c, d)
+            };
+            let truth = fol::Formula::AtomicFormula(fol::AtomicFormula::Truth);
+            let falsity = fol::Formula::AtomicFormula(fol::AtomicFormula::Falsity);
+            let bin = |c: fol::BinaryConnective, l: fol::Formula, r: fol::Formula| fol::Formula::BinaryFormula { connective: c, lhs: l.into(), rhs: r.into() };
+            use fol::BinaryConnective as B;
+            match rng.below(8) {
+                0 => bin(B::Conjunction, cls, truth),
+                1 => bin(B::Disjunction, falsity, cls),
+                2 => bin(B::Implication, truth, cls),
+                3 => fol::Formula::UnaryFormula { connective: fol::UnaryConnective::Negation, formula: bin(B::Implication, cls, falsity).into() },
+                4 => bin(B::Conjunction, cls.clone(), cls),
+                5 => bin(crate::generate::connective(rng), other, cls),
+                6 => bin(crate::generate::connective(rng), cls, other),
+                _ => bin(B::ReverseImplication, cls, other),
+            }
+        }
+    }
+}
+fn gen_full_shallow(rng: &mut Rng) -> Sexp {
+    l(vec![a("shallow"), conv::formula(&full_formula(rng))])
+}
+fn gen_full_recursive(rng: &mut Rng) -> Sexp {
+    l(vec![a("recursive"), conv::formula(&full_formula(rng))])
+}
 /// generator of the semantic op on the full portfolio: the case together with the
 /// implementation's output, `((strategy F) G)`
 fn gen_sem_full(rng: &mut Rng) -> Sexp {
@@ -153,6 +214,8 @@ pub fn ops() -> Vec<Op> {
         Op { name: "simplify_cls", generate: gen_strategy_case, run: run_simplify_cls },
         Op { name: "sc_outside_parser", generate: gen_outside_parser, run: run_outside_parser },
         Op { name: "simplify_full_classic", generate: gen_strategy_case, run: run_simplify_full_classic },
+        Op { name: "simplify_full_classic_shallow", generate: gen_full_shallow, run: run_simplify_full_classic },
+        Op { name: "simplify_full_classic_recursive", generate: gen_full_recursive, run: run_simplify_full_classic },
         Op { name: "sem_simplify_full_classic", generate: gen_sem_full, run: run_identity },
         Op { name: "sc_parse", generate: gen_parse, run: run_parse },
     ]
